@@ -806,7 +806,71 @@ def spec_check(ctx, budget):
 # --------------------------------------------------------------------------
 # correspondence: Lean row model vs the real Aligned rows / ArrayAlignment rows
 # --------------------------------------------------------------------------
-MODEL_OPS = ("slice", "int", "rc", "take_seqs", "take_positions", "to_rna", "to_dna", "add", "keep")
+MODEL_OPS = ("slice", "int", "rc", "take_seqs", "take_positions", "to_rna", "to_dna", "add", "keep",
+             "degapped_relative_to", "sample_perm", "sample_idx", "to_type",
+             "no_degenerates", "omit_gap_pos", "filtered")
+
+
+def _filter_mask(mt, rows, op):
+    """column mask (True = kept) that filtered()/no_degenerates()/omit_gap_pos() apply to these rows: the predicate is
+    evaluated here on the string columns (both classes see the same columns); the model then mirrors what the classes
+    do with the kept blocks.  None when the call refuses (length not divisible and drop_remainder=False)."""
+    k = op[0]
+    names = list(rows)
+    n = len(rows[names[0]]) if names else 0
+    if k == "no_degenerates":
+        ml = op[2] if len(op) > 2 else 1
+        ok = set(CANON[mt]) | ({"-"} if op[1] else set())
+        pred = lambda ms: all(c in ok for m in ms for c in m)
+    elif k == "omit_gap_pos":
+        ml = op[2] if len(op) > 2 else 1
+        frac = 1 - 1e-6 if op[1] is None else op[1]
+        denom = len(names) * ml
+        pred = lambda ms: sum(c in "-?" for m in ms for c in m) / denom <= frac
+    else:
+        ml = op[2]
+        pred = PREDS[op[1]]
+        if n % ml and not op[3]:
+            return None
+    nm_ = n // ml
+    kept = {j for j in range(nm_) if pred(tuple(rows[x][j * ml : (j + 1) * ml] for x in names))}
+    return [(i // ml) in kept and i < nm_ * ml for i in range(n)]
+
+
+def _model_ops(mt, rows, ops):
+    """the driver's encoding of a harness history (state dependent for the filter ops); stops where the model stops"""
+    res = []
+    cur_mt, cur = mt, dict(rows)
+    for op in ops:
+        if op[0] in ("no_degenerates", "omit_gap_pos", "filtered"):
+            mask = _filter_mask(cur_mt, cur, op)
+            if mask is None:
+                break
+            res.append(["filter_mask", mask])
+        else:
+            res.append(_model_op(op))
+        try:
+            if op[0] == "keep":
+                cur = {nm: "".join(s[a:b] for a, b in op[1]) for nm, s in cur.items()}
+            else:
+                cur_mt, cur = _spec_apply(cur_mt, cur, op)
+        except Exception:
+            break
+    return res
+
+
+def _model_op(op):
+    """the driver's encoding of a harness op: sample -> explicit locations; to_type -> class round trip"""
+    k = op[0]
+    if k == "sample_perm":
+        ml = op[3] if len(op) > 3 else 1
+        locs = op[1][: op[2]] if op[2] else op[1]
+        return ["sample", [int(x) for x in locs], ml]
+    if k == "sample_idx":
+        return ["sample", [int(x) for x in op[1]], op[2] if len(op) > 2 else 1]
+    if k == "to_type":
+        return ["to_type_roundtrip"]
+    return op
 
 
 def _row_state(aln):
@@ -836,8 +900,11 @@ def correspondence(ctx):
         "(slice incl. None/negative/beyond-len, int, rc, take_seqs, take_positions, to_rna/to_dna, + (self/copy), keep = "
         "gapped_by_map with a run-length FeatureMap as filtered() builds) and of planned histories (slice->rc->slice with "
         "bounds at gap boundaries, take_positions repeated/unsorted/negative/out-of-range, both polarities) on alignments "
-        "with all-gap rows/columns, one row, one column, zero columns; omit_gap_pos / motif-wise filtered / sample / "
-        "to_type are not in the model and are covered by the spec-level differential only; dense rows vs ArrayAlignment. compared: each "
+        "with all-gap rows/columns, one row, one column, zero columns; get_degapped_relative_to, sample with given "
+        "indices (motif_length 1 and 3) and the to_type round trip are in the model too; filtered / no_degenerates / omit_gap_pos "
+        "(motif_length 1-3) are in the model as `filter_mask` (the predicate is evaluated by the harness on the string columns, "
+        "the model mirrors the run-length FeatureMap + joined_segments path of Alignment and the column take of "
+        "ArrayAlignment); dense rows vs ArrayAlignment. compared: each "
         "row's (gap_pos, cum_gap_lengths, parent_length, data string), names, to_dict. non-trivial = distinct (alignment, "
         "history) with >= 1 op applied and a gap in some row"
     )
@@ -892,7 +959,8 @@ def correspondence(ctx):
             cases.append((mt, rows, ops))
             bump(out, "corr_plan", name)
             bump(out, "corr_shape", shape)
-    reqs = [("history", dict(moltype=mt, rows=[[k, v] for k, v in rows.items()], ops=ops)) for mt, rows, ops in cases]
+    reqs = [("history", dict(moltype=mt, rows=[[k, v] for k, v in rows.items()], ops=_model_ops(mt, rows, ops)))
+            for mt, rows, ops in cases]
     models = ctx.driver.batch(reqs)
     for (mt, rows, ops), model in zip(cases, models):
         if "error" in model:
@@ -909,7 +977,16 @@ def correspondence(ctx):
                 alive_a = False
             if alive_a:
                 try:
-                    aln = _real_model_op(aln, op)
+                    if op[0] == "to_type":
+                        # class conversion there and back: the rows are rebuilt from to_dict()
+                        aln = aln.to_type(array_align=True).to_type(array_align=False)
+                    else:
+                        aln = _real_model_op(aln, op)
+                    if aln is None:
+                        # filtered() kept nothing
+                        real_states.append({"err": "None"})
+                        alive_a = False
+                        continue
                     real_states.append(_row_state(aln))
                 except Exception as e:
                     real_states.append({"err": type(e).__name__})
@@ -920,7 +997,14 @@ def correspondence(ctx):
                         from cogent3.core.location import FeatureMap
 
                         raise NotImplementedError
-                    arr = _real_apply(arr, op, arr.moltype.label)
+                    if op[0] == "to_type":
+                        arr = arr.to_type(array_align=False).to_type(array_align=True)
+                    else:
+                        arr = _real_apply(arr, op, arr.moltype.label)
+                    if arr is None:
+                        arr_states.append({"err": "None"})
+                        alive_b = False
+                        continue
                     arr_states.append(arr.to_dict())
                 except NotImplementedError:
                     alive_b = False
